@@ -221,6 +221,24 @@ def run_case(case):
             out.append(Disc('proxy.undeclared-accepted', ''))
         except AttributeError:
             pass
+        # a method asked for on an interface that does not declare it is not a declared call - even if another of the
+        # proxy's interfaces (the last one, say) has a method of that name
+        active = case['ifaces'][(1 if (pre_known is not None and not case['replace']) else 0):]
+        for spec in active:
+            for other in active:
+                if other is spec:
+                    continue
+                here = {m['name'] for m in spec['methods']}
+                for m in other['methods']:
+                    if m['name'] in here:
+                        continue
+                    n = len(R.split_signature(m['in']))
+                    try:
+                        prox.callRemote(m['name'], *(['x'] * n), interface=spec['name'])
+                        out.append(Disc('proxy.accepted-on-wrong-interface', 'callRemote(%r, interface=%r) accepted; only %r '
+                                                                              'declares it' % (m['name'], spec['name'], other['name'])))
+                    except (AttributeError, TypeError):
+                        pass
     except Exception as e:
         out.append(Disc(exc_key(e, 'c15.exception'), exc_detail(e)))
     finally:
